@@ -44,7 +44,7 @@ def _tmpdir():
 
 @st.composite
 def stream_case(draw):
-    o = gens.opts(max_fields=5, max_depth=2, eof=False, signed_flags=False, long_strings=True)
+    o = gens.opts(max_fields=5, max_depth=2, eof=False, signed_flags=False, long_strings=True, null_structs=True, bits_char=True, bits_odd=True, wide_bits=True)
     case = draw(gens.input_case(o, tail=False))
     align = case["cfg"]["align"]
     p = draw(st.integers(0, 5)) * 16 if align else draw(st.integers(0, 40))
